@@ -247,7 +247,9 @@ def run(model, tier):
         'Also decided here: the ideal-gas rarefaction-fan formulas of the 1D Riemann solver satisfy the Euler equations in (x, t), '
         'every fan of both 1D solvers uses the sound speed of its own state, and the Sedov interior (similarity functions in '
         'parametric form, standard / omega2 / omega3 branches) satisfies the Euler equations in geometry j (the C04 / C11 rules). '
-        'Numerically integrated solutions (Guderley, general-EOS fans) and the EHEP region assembly are not decided.')
+        'The escape-of-HE-products formulas of regions I-V (each branch of the region chain executed with symbolic (x, t)) satisfy '
+        'the planar Euler equations for gamma = 3. Numerically integrated solutions (Guderley, general-EOS fans) and the EHEP '
+        'region selection (polygon tests) are not decided.')
     res.rule_text = 'instance = one conservation equation on one smooth piece of one solver'
     res.trusted_base = ['CPython ast', 'sympy expand / FracField', 'value-graph builder', 'spec/pde_scope.json']
     spec = load_spec('pde_scope.json')
@@ -269,7 +271,11 @@ def run(model, tier):
 
     from . import c11
     from ..par import run_parallel
-    tasks = [(closed_forms, ()), (riemann, ())] + c11.interior_pde_tasks(model)
+    def ehep(part):
+        from . import c01_ehep
+        c01_ehep.regions(model, part)
+
+    tasks = [(closed_forms, ()), (riemann, ()), (ehep, ())] + c11.interior_pde_tasks(model)
     run_parallel(tasks, res)
     for f in res.findings:
         if f.prop != PROP:
